@@ -2,6 +2,7 @@ package checks
 
 import (
 	"encoding/json"
+	"errors"
 	"fmt"
 	"math/rand"
 	"net"
@@ -108,18 +109,29 @@ func c20BigLines() []string {
 }
 
 // c20ExchangeRaw sends raw bytes as one DNS message and returns the reply.
-func c20ExchangeRaw(addr string, tcp bool, wire []byte) (*dns.Msg, error) {
+func c20ExchangeRaw(addr string, tcp bool, wire []byte) (m *dns.Msg, err error) {
+	for attempt := 0; attempt < 3; attempt++ {
+		m, err = c20ExchangeRawOnce(addr, tcp, wire)
+		var ne net.Error
+		if err == nil || !errors.As(err, &ne) || !ne.Timeout() {
+			return
+		}
+	}
+	return
+}
+
+func c20ExchangeRawOnce(addr string, tcp bool, wire []byte) (*dns.Msg, error) {
 	netw := "udp"
 	if tcp {
 		netw = "tcp"
 	}
-	c := &dns.Client{Net: netw, Timeout: 5 * time.Second}
+	c := &dns.Client{Net: netw, Timeout: 10 * time.Second}
 	conn, err := c.Dial(addr)
 	if err != nil {
 		return nil, err
 	}
 	defer conn.Close()
-	conn.SetDeadline(time.Now().Add(5 * time.Second))
+	conn.SetDeadline(time.Now().Add(10 * time.Second))
 	conn.UDPSize = 65535
 	if _, err := conn.Write(wire); err != nil {
 		return nil, err
@@ -137,18 +149,31 @@ func c20ExchangeRaw(addr string, tcp bool, wire []byte) (*dns.Msg, error) {
 }
 
 // c20Exchange sends q over the given transport and returns the reply plus the wire length.
-func c20Exchange(addr string, tcp bool, q *dns.Msg) (*dns.Msg, int, error) {
+// c20Exchange sends q and waits for the reply; a timeout is retried twice (a datagram lost on a loaded machine is
+// not the server refusing to answer; three silent attempts in a row are reported by the caller).
+func c20Exchange(addr string, tcp bool, q *dns.Msg) (m *dns.Msg, n int, err error) {
+	for attempt := 0; attempt < 3; attempt++ {
+		m, n, err = c20ExchangeOnce(addr, tcp, q)
+		var ne net.Error
+		if err == nil || !errors.As(err, &ne) || !ne.Timeout() {
+			return
+		}
+	}
+	return
+}
+
+func c20ExchangeOnce(addr string, tcp bool, q *dns.Msg) (*dns.Msg, int, error) {
 	netw := "udp"
 	if tcp {
 		netw = "tcp"
 	}
-	c := &dns.Client{Net: netw, Timeout: 5 * time.Second}
+	c := &dns.Client{Net: netw, Timeout: 10 * time.Second}
 	conn, err := c.Dial(addr)
 	if err != nil {
 		return nil, 0, err
 	}
 	defer conn.Close()
-	conn.SetDeadline(time.Now().Add(5 * time.Second))
+	conn.SetDeadline(time.Now().Add(10 * time.Second))
 	conn.UDPSize = 65535
 	if err := conn.WriteMsg(q); err != nil {
 		return nil, 0, err
